@@ -709,7 +709,7 @@ def classify_api(case, res, code):
         msg = str(out.get("msg") or out.get("repr") or "")
         zero_d_dok = any(a["kind"] == "sparse" and a["spec"]["format"] == "dok" and a["spec"]["shape"] == []
                          and a["spec"]["data"] for a in case["args"])
-        if code == 3 and zero_d_dok and "Invalid iterable to convert to COO" in msg:
+        if zero_d_dok and "Invalid iterable to convert to COO" in msg:
             clause = "zero_d_dok_operand_with_stored_value"
         elif code == 3 and got == "AttributeError" and "'int' object has no attribute 'dtype'" in msg:
             clause = "python_scalar_with_empty_ndarray"
@@ -823,7 +823,9 @@ def campaign(build, tier, seed, report, budget=1):
                    "seeded samples of sparse x {scalar, 0-d, ndarray, scipy}, ternary, in-place/out=, 4-d; operator / ufunc "
                    "/ sparse.elemwise / method forms; formats COO, GCXS (random compressed axes), DOK; fills 0 / nonzero / "
                    "mixed.  distinct_nontrivial = distinct (op, form, operands) whose result stores at least one element")
-    cov["exhaustive"] = "shape pairs of <= 3-d with extents {0,1,2,3} (binary), shapes (unary), _get_broadcast_shape pairs"
+    cov["exhaustive"] = False
+    cov["exhaustive_scopes"] = ("all shapes of <= 3-d with extents {0,1,2,3}: unary ops; all ordered COMPATIBLE pairs of such "
+                                "shapes: binary sparse x sparse; all ordered pairs: _get_broadcast_shape (is_result=False)")
     cov["samples"] = [dict(case=api[i], impl=res_api[i]) for i in (0, len(api) // 3, 2 * len(api) // 3, len(api) - 1)]
     cov["branch_tags"] = dict(sorted(tags.items()))
     cov["differential_only"] = {
@@ -836,7 +838,15 @@ def campaign(build, tier, seed, report, budget=1):
     return viol
 
 
-UNPROVED = []
+UNPROVED = [
+    "Model.Elemwise.elemwise2 (the written-out same-shape three-mask model of theorem elemwise2_den) = the general "
+    "elemwise on [a; b]: checked by correspondence only (judge_elemwise2); both are proved equal to the Spec separately",
+    "np.argsort's unstable tie order inside _match_coo: the model uses a stable sort; the proofs use only that argsort is "
+    "a sorting permutation (argsort_perm, argsort_sorted) but no theorem is stated over all sorting permutations",
+    "output-format rule (out_format / result_format) and the final .asformat(...) conversion to GCXS / DOK: correspondence only",
+    "ufunc dtype resolution, astype casting, float / complex semantics, overflow: differential only (coverage.differential_only)",
+    "in-place operators and out=: only the functional result is compared; the object swap is not modelled",
+]
 
 
 def replay(path):
